@@ -12,7 +12,7 @@ META = {
                  "iteration on every path, no fall-through, default: skip_item(), length decremented once. R08.2 no case "
                  "reads what another case writes; time-offset resolution is after the loop. R08.3 imports the decoder "
                  "obligations (skip exhaustiveness, stop-code agreement, tag content, widths). R08.4 every read starts "
-                 "from reset state. R08.5 unknown keys cannot alias negative case labels. R08.6 = R07.9 (chunked strings). Reads that only size a reserve() do not make a case order-dependent; the array loop of read_array written out by hand is the same consumption.",
+                 "from reset state. R08.5 unknown keys cannot alias negative case labels. R08.6 = R07.9 (chunked strings). Reads that only size a reserve() do not make a case order-dependent; the array loop of read_array written out by hand is the same consumption. R08.1 also recognises one loop per length form (counted loop + indefinite loop with the stop-code test first, same body).",
     "explanation": "Sibling cross-check of ~19 readers against one loop discipline, decided on the structured AST for all "
                    "inputs; equality of decoded values across rewrites is not decided.",
     "trusted_base": ["clang 14 AST"],
